@@ -495,3 +495,34 @@ def analyze(res, sc, cfg, sr, want=("delivery", "barrier", "atomic"), known_dead
 LAYOUTS_QUICK = [(1, 1), (1, 4), (2, 2), (2, 3), (3, 2), (4, 1), (3, 3)]
 ROUTINGS = ["NONE", "NR", "NLNR"]
 POLICIES = ["uniform", "racer", "starve", "late", "burst"]
+
+
+def find_root_uid(n, params, sizes, want_dests, start=(1 << 20) + 5000):
+    """smallest uid >= start whose handler (ttl 1) sends exactly to want_dests, in order, as plain asyncs,
+    without handler-side progress or callback (mirrors handler_body)"""
+    uid = start
+    while True:
+        uid += 1
+        h = mix((uid * 0x51ed27) & M64)
+        fan = h % (params["maxfan"] + 1)
+        if fan != len(want_dests):
+            continue
+        h = mix(h)
+        ok = True
+        for i in range(fan):
+            cu = uid * 8 + i + 1
+            hh = mix(cu)
+            if hh % n != want_dests[i]:
+                ok = False
+                break
+            hh = mix(mix(hh))
+            if hh % 100 < params["hbc"]:
+                ok = False
+                break
+        if not ok:
+            continue
+        if (h % 100) < params["hprog"]:
+            continue
+        if (mix(h) % 100) < params["hcb"]:
+            continue
+        return uid
